@@ -68,14 +68,18 @@ fn lookups(t: &ReadonlyTable, nkeys: u64) -> Vec<u64> {
 fn locals(t: &ReadonlyTable, nkeys: u64) -> Vec<u64> {
     (1..=nkeys).map(|k| dec(t.segment_get_value(&key(k)))).collect()
 }
-fn chain(t: &Arc<ReadonlyTable>, names: &mut Names) -> Vec<Vec<usize>> {
-    t.ancestor_segments().map(|s| vec![names.get(s.name()), s.segment_num_entries()]).collect()
+/// the segment stack of a table, newest first: [name, local entry count, local value per key]
+fn chain(t: &Arc<ReadonlyTable>, names: &mut Names, nkeys: u64) -> Vec<Value> {
+    t.ancestor_segments()
+        .map(|s| json!([names.get(s.name()), s.segment_num_entries(), locals(s, nkeys)]))
+        .collect()
 }
 
 fn run_script(script: &[Value], nkeys: u64, nwriters: usize, case_no: usize, out: &mut Out) {
     let dir = tempfile::tempdir().unwrap();
     TableStore::init(dir.path().to_path_buf(), KEY_SIZE);
     let mut names = Names(HashMap::new());
+    let mut tables: HashMap<usize, Arc<ReadonlyTable>> = HashMap::new();
     let mut writers: Vec<Writer> = (0..nwriters)
         .map(|_| Writer { store: TableStore::load(dir.path().to_path_buf(), KEY_SIZE), table: None, pending: None, puts: BTreeMap::new() })
         .collect();
@@ -95,8 +99,10 @@ fn run_script(script: &[Value], nkeys: u64, nwriters: usize, case_no: usize, out
                 match r {
                     Ok(Ok(t)) => {
                         let heads_after = list_heads(dir.path(), &mut names);
-                        out.emit(&json!({"op":"gethead","w":w,"fresh":op == "reload","order":order,
-                            "name":names.get(t.name()),"vals":lookups(&t, nkeys),"chain":chain(&t, &mut names),
+                        let first_chain = order.first().and_then(|n| tables.get(n)).map(|t| chain(t, &mut names, nkeys)).unwrap_or_default();
+                        tables.insert(names.get(t.name()), t.clone());
+                        out.emit(&json!({"op":"gethead","w":w,"fresh":op == "reload","order":order,"first_chain":first_chain,
+                            "name":names.get(t.name()),"vals":lookups(&t, nkeys),"chain":chain(&t, &mut names, nkeys),
                             "heads":heads_after}));
                         wr.table = Some(t);
                         wr.pending = None;
@@ -121,13 +127,15 @@ fn run_script(script: &[Value], nkeys: u64, nwriters: usize, case_no: usize, out
                 let (Some(t), Some(m)) = (wr.table.clone(), wr.pending.take()) else { continue };
                 let seen = lookups(&t, nkeys);
                 let base = names.get(t.name());
+                let base_chain = chain(&t, &mut names, nkeys);
                 let store = &wr.store;
                 let r = catch(std::panic::AssertUnwindSafe(move || store.save_table(m)));
                 match r {
                     Ok(Ok(nt)) => {
                         let puts: Vec<Vec<u64>> = wr.puts.iter().map(|(k, v)| vec![*k, *v]).collect();
-                        out.emit(&json!({"op":"save","w":w,"base":base,"seen":seen,"puts":puts,"local":locals(&nt, nkeys),
-                            "name":names.get(nt.name()),"vals":lookups(&nt, nkeys),"chain":chain(&nt, &mut names),
+                        tables.insert(names.get(nt.name()), nt.clone());
+                        out.emit(&json!({"op":"save","w":w,"base":base,"base_chain":base_chain,"seen":seen,"puts":puts,"local":locals(&nt, nkeys),
+                            "name":names.get(nt.name()),"vals":lookups(&nt, nkeys),"chain":chain(&nt, &mut names, nkeys),
                             "heads":list_heads(dir.path(), &mut names)}));
                         wr.table = Some(nt);
                         wr.puts.clear();
@@ -143,8 +151,9 @@ fn run_script(script: &[Value], nkeys: u64, nwriters: usize, case_no: usize, out
     let store = TableStore::load(dir.path().to_path_buf(), KEY_SIZE);
     let order = list_heads(dir.path(), &mut names);
     match store.get_head() {
-        Ok(t) => out.emit(&json!({"op":"gethead","w":0,"fresh":true,"order":order,"name":names.get(t.name()),
-            "vals":lookups(&t, nkeys),"chain":chain(&t, &mut names),"heads":list_heads(dir.path(), &mut names)})),
+        Ok(t) => out.emit(&json!({"op":"gethead","w":0,"fresh":true,"order":order,
+            "first_chain":order.first().and_then(|n| tables.get(n)).map(|t| chain(t, &mut names, nkeys)).unwrap_or_default(),
+            "name":names.get(t.name()),"vals":lookups(&t, nkeys),"chain":chain(&t, &mut names, nkeys),"heads":list_heads(dir.path(), &mut names)})),
         Err(e) => out.emit(&json!({"op":"error","call":"get_head","w":0,"msg":format!("{e:?}")})),
     }
 }
